@@ -246,6 +246,14 @@ func scriptTemplates(f *ssa.Function) [][]tplPart {
 			}
 		}
 		// a + chain that is itself written to a builder is handled with the builder
+		for _, r := range *bo.Referrers() {
+			if ci := callInfo(r, nil, 0); ci != nil && ci.Static != nil {
+				q := qualName(ci.Static)
+				if strings.HasPrefix(q, "strings.(Builder).Write") || strings.HasPrefix(q, "bytes.(Buffer).Write") {
+					return
+				}
+			}
+		}
 		out = append(out, flattenTemplate(bo))
 	})
 	// builder sequences: consecutive writes to the same accumulator; a block that only
